@@ -28,6 +28,11 @@ REWRITES = {
     # `match S { __s => if __s.len() == 2 { let a = &__s[0]; let b = &__s[1]; E1 } else if __s.len() == 3 { ... } else { E3 } }`
     # the standard desugaring of fixed-length slice patterns of plain bindings; handled by slice_match_rewrite below
     'slice_match': None,
+    # `let v = E.iter()[.inspect(|it| trace!(..))].map(|x| B).collect::<Vec<T>>();` (a closure capturing `&mut self`, which Verus
+    # refuses) -> `let v = { let __src = E; let mut __v: Vec<T> = Vec::new(); for x in __src.iter() { __v.push(B); } __v };`
+    # map + collect into a Vec is, by definition of the adapters, "apply B to each element in order and push"; the inspect stage
+    # is dropped only when its closure body is exactly one trace!(..) (logging).  Handled by map_collect_rewrite below.
+    'map_collect': None,
 }
 
 # run-time helpers emitted once into lib.rs (outside verus!, ordinary Rust, #[inline(always)])
@@ -214,6 +219,28 @@ def annotate_file(text, unit, canary=False, disabled_rewrites=()):
         for mt in re.finditer(r'/\*@c:' + re.escape(info.key) + r'#(\w+)#(\d+)\*/', new):
             info.clause_lines[new.count('\n', 0, mt.start()) + 1] = (mt.group(1), int(mt.group(2)))
     return new, infos
+
+
+MAP_COLLECT_RE = re.compile(
+    r'let\s+(?P<name>[A-Za-z_][A-Za-z_0-9]*)\s*=\s*(?P<recv>[^;{}]*?)\s*\.iter\(\)\s*'
+    r'(?:\.inspect\(\|\s*[A-Za-z_][A-Za-z_0-9]*\s*\|\s*trace!\((?P<tr>[^;]*?)\)\s*\)\s*)?'
+    r'\.map\(\|\s*(?P<x>[A-Za-z_][A-Za-z_0-9]*)\s*\|\s*(?P<body>[^;{}|]*?)\)\s*'
+    r'\.collect::<Vec<(?P<ty>[A-Za-z_][A-Za-z_0-9:]*)>>\(\)\s*;')
+
+
+def map_collect_rewrite(src, key, ob, cb, add_edit, info):
+    text = src.text
+    for mt in MAP_COLLECT_RE.finditer(text, ob, cb):
+        if not src.mask[mt.start()]:
+            continue
+        body = mt.group('body').strip()
+        # the closure body must be one balanced expression
+        if body.count('(') != body.count(')') or mt.group('recv').count('(') != mt.group('recv').count(')'):
+            raise AnchorLost('%s: map/collect chain the rewrite does not cover' % key)
+        rep = 'let %s = { let __src = %s; let mut __v: Vec<%s> = Vec::new(); for %s in __src.iter() { __v.push(%s); } __v };' % (
+            mt.group('name'), ' '.join(mt.group('recv').split()), mt.group('ty'), mt.group('x'), body)
+        add_edit(mt.start(), mt.end(), rep)
+        info.rewrites_applied.append('map_collect: let %s (inspect/trace stage %s)' % (mt.group('name'), 'dropped' if mt.group('tr') else 'absent'))
 
 
 def slice_match_rewrite(src, key, ob, cb, add_edit, info):
@@ -425,10 +452,13 @@ def process_fn(src, unit, key, spec, s, hp, ob, cb, add_edit, canary, disabled_r
             add_edit(p + len(anchor), p + len(anchor), ' ' + ins['text'], prio=3)
 
     # executable rewrites inside the body only
-    rw = [r for r in unit.get('rewrites', ['drop_trace', 'f64_nan', 'f64_max', 'unwrap_or_else_len', 'slice_match']) if r not in disabled_rewrites]
+    rw = [r for r in unit.get('rewrites', ['drop_trace', 'f64_nan', 'f64_max', 'unwrap_or_else_len', 'slice_match', 'map_collect']) if r not in disabled_rewrites]
     new_body = body
+    mc_ranges = [(m.start(), m.end()) for m in MAP_COLLECT_RE.finditer(text, ob, cb)] if 'map_collect' in rw else []
     if 'drop_trace' in rw:
         for mt in src.find_code(r'\btrace!\s*\(', ob, cb):
+            if any(a <= mt.start() < b for a, b in mc_ranges):
+                continue  # inside an inspect(..) stage that map_collect_rewrite replaces as a whole
             op = text.index('(', mt.start())
             cp = src.match_close(op)
             stmt_end = cp + 1
@@ -451,6 +481,8 @@ def process_fn(src, unit, key, spec, s, hp, ob, cb, add_edit, canary, disabled_r
             new_body = re.sub(rx, rep, new_body)
     if 'slice_match' in rw:
         slice_match_rewrite(src, key, ob, cb, add_edit, info)
+    if 'map_collect' in rw:
+        map_collect_rewrite(src, key, ob, cb, add_edit, info)
     for (rx, rep) in spec.get('rewrites', []):
         raise AnchorLost('per-function rewrites are not allowed')
     info.body_sha_verus = sha(new_body)
